@@ -13,7 +13,9 @@ Theorems (all for an arbitrary price file `es`, with `db = loadDb es`, arbitrary
 * `timed_rate`   – the entry picked by the real binary search (`core::slice::binary_search_by` loop) is `RateAt … (· ≤ instant)`
 * `convert_value`, `convert_value_units`, `convert_never_err` – what `convert_prices_inner` returns
 * `no_invented`  – a changed posting was valued with a rate that is literally in the price file for (its commodity → report commodity)
-* `metadata_true` – fixed lookups: the metadata records are exactly the rates applied
+* `metadata_true`, `metadata_rateAt` – fixed lookups: the metadata records are exactly the rates applied
+* `metadata_timed` – txn-time: the metadata names exactly the used commodities that have an entry into the report commodity
+* `result_order_free` – converted figures and metadata do not depend on the order of the price file
 -/
 namespace Tackler
 namespace C07
@@ -1011,6 +1013,79 @@ theorem metadata_rateAt (es : List PriceEntry) (txns : List Txn) (tgt : String)
   have hspec := fixedCache_spec (loadDb es) (loadDb_sorted es) (usedCommodities txns tgt) tgt bound k hused
   simp only [fixedEntry, hget, Option.map_some] at hspec
   exact ⟨⟨ns, k, rate, tgt⟩, hspec, rfl, hused⟩
+
+theorem keys_foldl_timed_nodup (tgt : String) (db : List PriceEntry) :
+    ∀ (used : List String) (m : List (String × List PriceEntry)), (keys m).Nodup →
+    (keys (used.foldl (fun m comm => if (commCache comm tgt db).isEmpty then m
+        else mapInsert m comm (commCache comm tgt db)) m)).Nodup := by
+  intro used
+  induction used with
+  | nil => intro m h; simpa using h
+  | cons a t ih =>
+    intro m h
+    simp only [List.foldl_cons]
+    apply ih
+    split
+    · exact h
+    · exact keys_insert_nodup m _ _ h
+
+/-- txn-time: the metadata names (without time and rate, which vary per transaction) exactly the used
+    commodities that have at least one entry into the report commodity; each once, in name order.
+    The rate applied to a posting is reported with the posting itself (`valued true …` in `convert_value`). -/
+theorem metadata_timed (db : List PriceEntry) (txns : List Txn) (tgt : String) :
+    (∀ r : PriceRecord, r ∈ metadata (makeCtx .txnTime txns (some tgt) db) ↔
+      ∃ src ∈ usedCommodities txns tgt, (∃ e ∈ db, e.base = src ∧ e.target = tgt) ∧ r = ⟨none, src, none, tgt⟩) ∧
+    (metadata (makeCtx .txnTime txns (some tgt) db)).Pairwise (fun a b => a.source < b.source) := by
+  have hnd : (keys (timedCache (usedCommodities txns tgt) tgt db)).Nodup := by
+    unfold timedCache; exact keys_foldl_timed_nodup tgt db _ [] (by simp [keys])
+  have hne : ∀ src, (commCache src tgt db).isEmpty = false ↔ ∃ e ∈ db, e.base = src ∧ e.target = tgt := by
+    intro src
+    unfold commCache
+    constructor
+    · intro h
+      cases hl : (List.filter (fun e => src == e.base && e.target == tgt) db).mergeSort (fun a b => decide (a.ns ≤ b.ns)) with
+      | nil => rw [hl] at h; simp at h
+      | cons e l =>
+        have : e ∈ (List.filter (fun e => src == e.base && e.target == tgt) db).mergeSort (fun a b => decide (a.ns ≤ b.ns)) := by
+          rw [hl]; exact List.mem_cons_self
+        have := List.mem_filter.mp (List.mem_mergeSort.mp this)
+        simp only [Bool.and_eq_true, beq_iff_eq] at this
+        exact ⟨e, this.1, this.2.1.symm, this.2.2⟩
+    · rintro ⟨e, he, hb, ht⟩
+      have : e ∈ (List.filter (fun e => src == e.base && e.target == tgt) db).mergeSort (fun a b => decide (a.ns ≤ b.ns)) := by
+        rw [List.mem_mergeSort, List.mem_filter]
+        simp [he, hb, ht]
+      cases hl : (List.filter (fun e => src == e.base && e.target == tgt) db).mergeSort (fun a b => decide (a.ns ≤ b.ns)) with
+      | nil => rw [hl] at this; cases this
+      | cons _ _ => rfl
+  constructor
+  · intro r
+    simp only [makeCtx, metadata, List.mem_map, mem_sortByKey]
+    constructor
+    · rintro ⟨⟨k, cc⟩, hkv, rfl⟩
+      have hget := (mem_iff_mapGet _ hnd k cc).mp hkv
+      unfold timedCache at hget
+      rw [mapGet_foldl_timed] at hget
+      split at hget
+      · rename_i h
+        exact ⟨k, h.1, (hne k).mp h.2, rfl⟩
+      · simp [mapGet] at hget
+    · rintro ⟨src, hu, hex, rfl⟩
+      refine ⟨(src, commCache src tgt db), ?_, rfl⟩
+      apply (mem_iff_mapGet _ hnd src _).mpr
+      unfold timedCache
+      rw [mapGet_foldl_timed, if_pos ⟨hu, (hne src).mpr hex⟩]
+  · simp only [makeCtx, metadata]
+    exact List.pairwise_map.mpr ((sortByKey_strict _ hnd).imp (fun h => h))
+
+/-- corollary of `db_order_free`: every converted figure and the metadata are independent of the order of the
+    entries in the price file -/
+theorem result_order_free (es es' : List PriceEntry) (hp : es.Perm es') (hd : DistinctKeys es)
+    (lk : PriceLookup) (txns : List Txn) (rc : Option String) (t : Txn) :
+    convertPrices (makeCtx lk txns rc (loadDb es)) t = convertPrices (makeCtx lk txns rc (loadDb es')) t ∧
+    metadata (makeCtx lk txns rc (loadDb es)) = metadata (makeCtx lk txns rc (loadDb es')) := by
+  rw [db_order_free es es' hp hd]
+  exact ⟨rfl, rfl⟩
 
 /-! ## 9. non-vacuity and regression witnesses
 
